@@ -463,7 +463,7 @@ pub fn gen_scenario(run_seed: u64, variant: &str, tier: Tier) -> E2Scenario {
         for _ in 0..n {
             let p = (*rf.pick(&paths)).clone();
             let len = tree[&p].len().max(1);
-            let kind = *rf.pick(&["truncate", "truncate", "truncate", "bitflip", "bitflip", "splice", "empty", "badutf8", "unispace", "unispace", "token_subst", "token_subst", "paste_spread", "vanish", "unreadable"]);
+            let kind = *rf.pick(&["truncate", "truncate", "truncate", "bitflip", "bitflip", "splice", "empty", "badutf8", "unispace", "unispace", "token_subst", "token_subst", "token_insert", "token_insert", "paste_spread", "vanish", "unreadable"]);
             corruptions.push(Corruption { path: p, kind: kind.into(), a: rf.below(len), b: rf.below(8) });
         }
         if tier == Tier::Thorough && rf.chance(1, 12) {
@@ -1542,6 +1542,35 @@ fn drive_c17(sc: &E2Scenario, rep: &mut RunReport) {
         {
             let p = &sc.project;
             let sin = sc.schema_inputs();
+            // (an introspection result is one file: there the order in which the server lists the
+            // types is the incidental one)
+            if p.introspection() && sin.len() == 1 {
+                let mut rev = p.schema.clone();
+                rev.types.reverse();
+                let mut t2 = tree0.clone();
+                t2.insert(sin[0].clone(), crate::wgen::render_introspection(&rev, p.schema.types.len() % 2 == 0).into_bytes());
+                sandbox::reset_tree(&t2);
+                let (r5, after5) = rn.on_tree(cmds, "json", sc.hash_seeds[0], Some(sc.readdir_seeds[0]), &[]);
+                rep.probe("introspection_types_listed_in_reverse_order");
+                if r5.trapped() {
+                    rep.violate(&["C17", "C18", "C08"], &format!("trap@{}", r5.panic_site()), format!("introspection types reversed: exit {} {}", r5.exit, tail(&r5.stderr_str())));
+                } else if r5.exit != g.exit {
+                    rep.violate(&["C17"], "C17.5-file-order-changes-verdict", format!("the introspection result lists its types in reverse order: exit {} instead of {}", r5.exit, g.exit));
+                } else {
+                    for (path, b) in &gtree {
+                        if tree0.contains_key(path) || path.ends_with(".map") {
+                            continue;
+                        }
+                        if after5.get(path).map(|x| sorted_tokens(x)) != Some(sorted_tokens(b)) {
+                            rep.violate(
+                                &["C17"],
+                                "C17.5-file-order-changes-output",
+                                format!("the introspection result lists its types in reverse order: {path} does not consist of the same tokens any more"),
+                            );
+                        }
+                    }
+                }
+            }
             // (only when the schema is configured by wildcard patterns, not by file names)
             let by_glob = sin.len() >= 2 && !p.introspection() && sin.iter().all(|f| !p.config.schema_globs.iter().any(|g| g.contains(indep::basename(f))));
             if by_glob {
@@ -1563,7 +1592,8 @@ fn drive_c17(sc: &E2Scenario, rep: &mut RunReport) {
                 } else if r5.exit != g.exit {
                     rep.violate(&["C17"], "C17.5-file-order-changes-verdict", format!("schema files renamed so that they load in reverse order: exit {} instead of {}: {}", r5.exit, g.exit, tail(&r5.stdout_str())));
                 } else {
-                    let toks = |b: &Vec<u8>| -> Vec<String> {
+                    let toks = |b: &Vec<u8>| -> Vec<String> { sorted_tokens(b) };
+                    let _unused = |b: &Vec<u8>| -> Vec<String> {
                         let t = String::from_utf8_lossy(b);
                         let mut out: Vec<String> = Vec::new();
                         let mut cur = String::new();
@@ -1685,6 +1715,31 @@ fn drive_c17(sc: &E2Scenario, rep: &mut RunReport) {
 /// later run - no statement says so - but nothing generated may differ.
 fn covers(golden: &Tree, after: &Tree) -> bool {
     golden.iter().all(|(p, b)| after.get(p) == Some(b))
+}
+
+/// the multiset of tokens of a generated text (identifiers / numbers, and every other
+/// non-blank character on its own), sorted
+fn sorted_tokens(b: &[u8]) -> Vec<String> {
+    let t = String::from_utf8_lossy(b);
+    let mut out: Vec<String> = Vec::new();
+    let mut cur = String::new();
+    for ch in t.chars() {
+        if ch.is_alphanumeric() || ch == '_' || ch == '$' {
+            cur.push(ch);
+        } else {
+            if !cur.is_empty() {
+                out.push(std::mem::take(&mut cur));
+            }
+            if !ch.is_whitespace() {
+                out.push(ch.to_string());
+            }
+        }
+    }
+    if !cur.is_empty() {
+        out.push(cur);
+    }
+    out.sort();
+    out
 }
 
 fn classify(trace_name: &str) -> &'static str {
@@ -2004,6 +2059,26 @@ pub fn corrupt(tree: &mut Tree, c: &Corruption, all: &Tree) -> bool {
             out.push_str(&text[..victim.byte]);
             out.push_str(&donor.text);
             out.push_str(&text[victim.byte + victim.text.len()..]);
+            tree.insert(c.path.clone(), out.into_bytes());
+        }
+        "token_insert" => {
+            // a mis-paste: a token of the file (a name, a string, a brace, ...) lands in front of another token
+            let Ok(text) = String::from_utf8(orig.clone()) else { return false };
+            let toks = indep::lex(&text);
+            if toks.len() < 2 {
+                return false;
+            }
+            let victim = &toks[c.a % toks.len()];
+            let donor = &toks[(c.a / toks.len() + c.b * 13 + 1) % toks.len()];
+            let donor_text = match donor.kind {
+                indep::TokKind::Str => format!("\"{}\"", donor.text.trim_matches('"')),
+                _ => donor.text.clone(),
+            };
+            let mut out = String::new();
+            out.push_str(&text[..victim.byte]);
+            out.push_str(&donor_text);
+            out.push(' ');
+            out.push_str(&text[victim.byte..]);
             tree.insert(c.path.clone(), out.into_bytes());
         }
         "paste_spread" => {
